@@ -14,6 +14,9 @@ func (c *Ctx) checkGuard(p PtrV, write bool) {
 	if len(gs) == 0 || p.obj == nil || p.obj.t == nil || c.extra["guardsOff"] != nil {
 		return
 	}
+	if p.obj.allocFn != nil && c.cur != nil && p.obj.allocFn == c.cur.fn {
+		return // the allocating function initialises the object before it is published
+	}
 	if c.cur == nil || c.isHarnessFn(c.cur.fn) {
 		return // harness code builds and inspects state outside any lock by design
 	}
